@@ -376,6 +376,15 @@ func findEntry(l *loaded, name string) *ssa.Function {
 			return f
 		}
 	}
+	// a group that another requested group depends on is loaded as a
+	// dependency only
+	for _, p := range l.ssa.AllPackages() {
+		if strings.Contains(p.Pkg.Path(), "zz_verif") || strings.HasPrefix(p.Pkg.Path(), modPath) {
+			if f := p.Func(name); f != nil && strings.HasPrefix(name, "Verif") {
+				return f
+			}
+		}
+	}
 	return nil
 }
 
